@@ -52,15 +52,15 @@ SEEDS = {
     "C17_b": ("_incoming2/C17", "C17", ["C17"], "filenames uses len(seen) as a cursor into the sorted listing: a file created between polls whose name sorts before an already emitted path"),
     "C18_b": ("_incoming2/C18", "C18", ["C18"], "from_iterable checks stopped only after the first item: stop() between start() and the loop's first turn"),
     "C20_b": ("_incoming2/C20", "C20", ["C20", "C02"], "partition._flush resets after the await (core node mixed into DaskStream): more elements reach a partition inside the Dask segment while a flush is being gathered"),
-    "C06_b": ("_incoming2/C06", "C06", ["C06"], ""),
-    "C07_b": ("_incoming2/C07", "C07", ["C07"], ""),
-    "C11_b": ("_incoming2/C11", "C11", ["C11"], ""),
-    "C12_b": ("_incoming2/C12", "C12", ["C12"], ""),
-    "C13_b": ("_incoming2/C13", "C13", ["C13", "C02"], ""),
-    "C14_b": ("_incoming2/C14", "C14", ["C14"], ""),
-    "C15_b": ("_incoming2/C15", "C15", ["C15"], ""),
-    "C16_b": ("_incoming2/C16", "C16", ["C16"], ""),
-    "C19_b": ("_incoming2/C19", "C19", ["C19"], ""),
+    "C06_b": ("_incoming2/C06", "C06", ["C06", "C07"], "Mean divides by max(count, 1): a column whose prefix has rows but only NaN values (0.0 instead of NaN)"),
+    "C07_b": ("_incoming2/C07", "C07", ["C07"], "Mean.on_old subtracts len(old) instead of old.count(): a NaN row that enters the window and is evicted later"),
+    "C11_b": ("_incoming2/C11", "C11", ["C11"], "rolling_accumulator emits result.iloc[-len(new):]: an empty batch after a non-empty one re-emits the retained backlog"),
+    "C12_b": ("_incoming2/C12", "C12", ["C12"], "EWMean keeps its still-needs-first-row fact on the aggregation object instead of in the state: a cut inside a leading run of empty batches"),
+    "C13_b": ("_incoming2/C13", "C13", ["C13", "C02"], "delay wraps queue.get() in gen.with_timeout, which leaves the abandoned getter registered: an idle gap longer than the interval, then the next elements are swallowed"),
+    "C14_b": ("_incoming2/C14", "C14", ["C14"], "latest keeps its one-element slot at class level and writes it in place: two latest() nodes whose pending windows overlap"),
+    "C15_b": ("_incoming2/C15", "C15", ["C15"], "destroy() iterates self.upstreams while removing from it: a node with two or more inputs keeps every second edge"),
+    "C16_b": ("_incoming2/C16", "C16", ["C16", "C04"], "_finished() accepts a future that is already done with an exception: a consumer whose awaitable has failed by the time update() returns"),
+    "C19_b": ("_incoming2/C19", "C19", ["C19"], "_inform_loop no longer percolates to downstreams of visited nodes: branch an unbound pipeline, bind one branch late, then look at / extend the sibling"),
 }
 
 
